@@ -26,6 +26,7 @@ BUDGET = H.P('budget', 12)               # pulls after which the source raises t
 DMAX = H.P('dmax', 3)                    # results demanded: 0..DMAX
 IMAX = H.P('imax', 2)                    # integer arguments: 0..IMAX
 DEPTH = H.P('depth', 1)
+KMAX = H.P('kmax')                       # lambda constants in -1..KMAX (None: unbounded)
 ENG = yq.ENG_RAW
 
 FUNCTIONS_ENCODED = [
@@ -36,10 +37,10 @@ FUNCTIONS_ENCODED = [
     'yaql.standard_library.collections: delete replace iter_insert insert_many replace_many']
 BOUNDS = {
     'quick': 'every operator of the list alone, and 2-operator pipelines: every operator as first, the second chosen '
-             'by a symbolic selector among a VERIF_SEED-rotated third of the table; source = endless counting iterator 0,1,2,... with budget 12; '
+             'by a symbolic selector among a VERIF_SEED-rotated seventh of the table (constants there in -1..3); source = endless counting iterator 0,1,2,... with budget 12; '
              'results demanded k in 0..3 (symbolic), integer arguments in 0..2 (symbolic), lambda constants unbounded '
              'symbolic ints restricted only by "the ideal pipeline terminates within the budget"; call API with counting '
-             'Python lambdas; a rotated sixth of the single operators also as YAQL text with tick($) lambdas (budget 8)',
+             'Python lambdas; every single operator also as YAQL text with tick($) lambdas (budget 8, k<=2, ints<=1)',
     'thorough': 'all 2-operator pipelines (call API and YAQL text), 3- and 4-operator pipelines with every later '
                 'operator chosen by symbolic selectors (k in 0..2, ints in 0..1), budget 14'}
 OUTSIDE = ['operators that materialise by definition (orderBy, groupBy, reverse, last, splitAt, toList, ...)',
@@ -211,6 +212,14 @@ def g_join(it, a):
                 yield [x, y]
 
 
+def first_true(gen):
+    """short-circuit any() (the builtin is replaced by CrossHair with a version that consumes its whole argument)"""
+    for b in gen:
+        if b:
+            return True
+    return False
+
+
 def tk(a, x):
     return a['T'](x)
 
@@ -268,10 +277,10 @@ OPS = [
     Op('first', 'first()', lambda x, a: M('first', x), lambda it, a: next(it), needs_int=False, terminal=True,
        closed=lambda a: 1),
     Op('any', 'any(tick($) > $k%d)', lambda x, a: M('any', x, lambda y: tk(a, y) > a['k']),
-       lambda it, a: any(tk(a, y) > a['k'] for y in it), terminal=True, uses=('k',),
+       lambda it, a: first_true(tk(a, y) > a['k'] for y in it), terminal=True, uses=('k',),
        closed=lambda a: a['k'] + 2 if a['k'] >= 0 else 1),
     Op('all', 'all(tick($) < $k%d)', lambda x, a: M('all', x, lambda y: tk(a, y) < a['k']),
-       lambda it, a: all(tk(a, y) < a['k'] for y in it), terminal=True, uses=('k',),
+       lambda it, a: not first_true(not (tk(a, y) < a['k']) for y in it), terminal=True, uses=('k',),
        closed=lambda a: a['k'] + 1 if a['k'] >= 0 else 1),
     Op('indexOf', 'indexOf($k%d)', lambda x, a: M('indexOf', x, a['k']),
        lambda it, a: next(n for n, y in enumerate(it) if y == a['k']), terminal=True, uses=('k',),
@@ -426,7 +435,10 @@ def in_domain(sels, demand, ints, consts):
                     return False
             elif ints[slot] != 0:
                 return False
-        if 'k' not in uses and consts[pos] != 0:
+        if 'k' not in uses:
+            if consts[pos] != 0:
+                return False
+        elif KMAX is not None and not (-1 <= consts[pos] <= KMAX):
             return False
     with H.NoTracing():
         try:
@@ -523,11 +535,7 @@ def conditions(tier, seed):
     ntext = 0
     for s1, o in enumerate(OPS):
         for mode in ('api', 'text'):
-            if quick and mode == 'text':
-                # YAQL-text evaluation costs ~1.5 s per path here: a VERIF_SEED-rotated sixth of the operators per run
-                ntext += 1
-                if ntext % 6 != seed % 6:
-                    continue
+            # YAQL-text evaluation costs ~1.5 s per path at the API bounds: quick uses budget 8, k<=2, ints<=1 there
             small = quick and mode == 'text'
             prm = {'s1': s1, 'depth': 1, 'mode': mode, 'budget': 8 if small else budget,
                    'dmax': 2 if small else (3 if quick else 4), 'imax': 1 if small else (2 if quick else 3)}
@@ -540,8 +548,6 @@ def conditions(tier, seed):
                                       'YAQL text, lambdas go through tick()')})
         if o.closed is not None:
             for mode in ('api', 'text'):
-                if quick and mode == 'text' and s1 % 3 != seed % 3:
-                    continue
                 out.append({'name': 'search[%s|%s]' % (o.name, mode), 'func': 'h_search', 'timeout': 200,
                             'param': {'s1': s1, 'mode': mode, 'budget': 8 if (quick and mode == 'text') else budget},
                             'twin': mode == 'api',
@@ -557,13 +563,15 @@ def conditions(tier, seed):
     firsts = [n for n, o in enumerate(OPS) if not o.terminal]
     thirds = [LATER[t::3] for t in range(3)]
     if quick:
-        chosen = [(s1, (seed + s1) % 3) for s1 in firsts]
-        for s1, tn in chosen:
-            out.append({'name': 'pipe2[%s|third%d]' % (OPS[s1].name, tn), 'func': 'h_pipe', 'timeout': 200,
-                        'param': {'s1': s1, 'depth': 2, 'mode': 'api', 'budget': budget, 'dmax': 2, 'imax': 2,
-                                  's2set': thirds[tn]},
-                        'bounds': '$s.%s.<op2>, op2 by symbolic selector among %s; k in 0..2, ints in 0..2, lambda '
-                                  'constants symbolic; call API' % (OPS[s1].name, [NAMES[x] for x in thirds[tn]])})
+        for s1 in firsts:
+            tn = (seed + s1) % 7
+            seventh = LATER[tn::7]
+            out.append({'name': 'pipe2[%s|seventh%d]' % (OPS[s1].name, tn), 'func': 'h_pipe', 'timeout': 200,
+                        'param': {'s1': s1, 'depth': 2, 'mode': 'api', 'budget': budget, 'dmax': 2, 'imax': 1,
+                                  'kmax': 3, 's2set': seventh},
+                        'bounds': '$s.%s.<op2>, op2 by symbolic selector among %s (a VERIF_SEED-rotated seventh of the '
+                                  'table); k in 0..2, ints in 0..1, lambda constants in -1..3; call API'
+                                  % (OPS[s1].name, [NAMES[x] for x in seventh])})
     else:
         for s1 in firsts:
             for tn in range(3):
@@ -571,7 +579,7 @@ def conditions(tier, seed):
                     out.append({'name': 'pipe2[%s|third%d|%s]' % (OPS[s1].name, tn, mode), 'func': 'h_pipe',
                                 'timeout': 900,
                                 'param': {'s1': s1, 'depth': 2, 'mode': mode, 'budget': budget, 'dmax': 2, 'imax': 2,
-                                          's2set': thirds[tn]},
+                                          'kmax': 4, 's2set': thirds[tn]},
                                 'bounds': '$s.%s.<op2>, op2 by symbolic selector among %s; k in 0..2, ints in 0..2, '
                                           'lambda constants symbolic; %s' % (OPS[s1].name,
                                                                             [NAMES[x] for x in thirds[tn]], mode)})
@@ -583,7 +591,7 @@ def conditions(tier, seed):
                     continue
                 out.append({'name': 'pipe3[%s|%s|*]' % (OPS[s1].name, OPS[s2].name), 'func': 'h_pipe', 'timeout': 900,
                             'param': {'s1': s1, 'depth': 3, 'mode': 'api', 'budget': budget, 'dmax': 2, 'imax': 1,
-                                      's2set': [s2], 's3set': small},
+                                      'kmax': 2, 's2set': [s2], 's3set': small},
                             'bounds': '3-operator pipelines $s.%s.%s.<op3>, op3 by symbolic selector among %s; k in '
                                       '0..2, ints in 0..1' % (OPS[s1].name, OPS[s2].name, [NAMES[x] for x in small])})
         tiny = [NAMES.index(x) for x in ('where', 'skip', 'take', 'select', 'first', 'any')]
@@ -592,7 +600,7 @@ def conditions(tier, seed):
                 out.append({'name': 'pipe4[%s|%s|*|*]' % (OPS[s1].name, OPS[s2].name), 'func': 'h_pipe',
                             'timeout': 900,
                             'param': {'s1': s1, 'depth': 4, 'mode': 'api', 'budget': budget, 'dmax': 2, 'imax': 1,
-                                      's2set': [s2], 's3set': tiny[:4], 's4set': tiny},
+                                      'kmax': 2, 's2set': [s2], 's3set': tiny[:4], 's4set': tiny},
                             'bounds': '4-operator pipelines $s.%s.%s.<op3>.<op4>, op3/op4 by symbolic selectors among '
                                       '%s; k in 0..2, ints in 0..1' % (OPS[s1].name, OPS[s2].name,
                                                                        [NAMES[x] for x in tiny])})
